@@ -154,6 +154,34 @@ def gen_siblings(rng: random.Random, delay_ms: int = 25) -> Dict[str, Any]:
     return {"groups": groups, "request": req, "delay_ms": delay_ms}
 
 
+def gen_inplace_siblings(rng: random.Random, all_inplace: bool = True) -> Dict[str, Any]:
+    """One root on Pandas / PythonDict, 2-3 SIBLING derived groups on the same framework (hence on the root's object), each
+    computing one column from root columns and not ordered among each other, and a consumer group over ALL of them.
+    Result styles are mixed per group: "inplace" (mutate the frame / the row dicts handed over) and, on Pandas, "series"
+    (return a pd.Series; PandasDataFrame.transform inserts it).  all_inplace=False: one sibling is "copy" (replacing) - the
+    recorded read-modify-write hazard.  Pandas families with >= 2 siblings get at least one "series" and one "inplace" group."""
+    cfw = "PandasDataFrame" if rng.random() < 0.7 else "PythonDictFramework"
+    cols = {c: [rng.randrange(0, 20) for _ in range(3)] for c in ["a", "b"]}
+    groups: List[Dict[str, Any]] = [{"name": "R0", "kind": "root", "cfw": cfw, "cols": cols}]
+    k = rng.randrange(2, 4)
+    if cfw == "PandasDataFrame":
+        styles = ["series", "inplace"] + [rng.choice(["series", "inplace"]) for _ in range(k - 2)]
+        rng.shuffle(styles)
+    else:
+        styles = ["inplace"] * k
+    if not all_inplace:
+        styles[rng.randrange(k)] = "copy"
+    sib = []
+    for i in range(k):
+        groups.append({"name": f"S{i}", "kind": "derived", "cfw": cfw, "style": styles[i],
+                       "features": {f"s{i}": {"inputs": [rng.choice(["a", "b"])], "c0": i, "coefs": [rng.choice([1, 2, 3])]}}})
+        sib.append(f"s{i}")
+    groups.append({"name": "C", "kind": "derived", "cfw": cfw, "style": rng.choice(["copy", "inplace"]),
+                   "features": {"c": {"inputs": list(sib), "c0": 0, "coefs": [1] * k}}})
+    req = ["c"] + rng.sample(sib, rng.randrange(0, k))
+    return {"groups": groups, "request": req, "family": "inplace_siblings"}
+
+
 def gen_partial_request(rng: random.Random) -> Dict[str, Any]:
     """A requested feature is produced by a step that is NOT the last user of its data: the request names a root column
     (or the right value column of a link) AND a feature computed elsewhere (another framework / after a join) from columns
